@@ -2,6 +2,7 @@
 import pool
 
 META = {
+    "thorough_extra": ["mocks", "client-only"],
     "level": "other",
     "explanation": "Necessary structural conditions, decided on every path of the MIR: (P5) IdleConnections::pop yields a popped entry only on the "
                    "edge is_open()==true of that same entry and on the not-expired edge of `entry.at < Instant::now() - idle_timeout` "
@@ -17,7 +18,7 @@ META = {
 
 RULES = [
     ("P5", pool.P5, ["default"]),
-    ("P2", pool.P2, ["default"]),
+    ("P2", pool.P2_aspects("callers", "open-guard"), ["default"]),
     ("C02.1", pool.C02_1, ["default"]),
     ("P1", pool.P1, ["default"]),
 ]
